@@ -10,8 +10,15 @@ use std::time::Duration;
 
 pub struct C17;
 
+thread_local! {
+    /// directory (relative to the scratch directory) under which this case's project tree is written
+    static TREE_PREFIX: std::cell::RefCell<String> = std::cell::RefCell::new(String::new());
+}
+
 fn disk_path(wd: &WorkDir, ws_path: &str) -> PathBuf {
-    wd.path.join(ws_path.trim_start_matches("/ws/"))
+    let pre = TREE_PREFIX.with(|p| p.borrow().clone());
+    let base = if pre.is_empty() { wd.path.clone() } else { wd.path.join(pre) };
+    base.join(ws_path.trim_start_matches("/ws/"))
 }
 
 fn toml_for(sw: &ScopedWs, pi: usize) -> String {
@@ -74,6 +81,15 @@ pub fn run_tree_mode(ctx: &mut Ctx, bytes: &[u8], rename_mode: bool) -> Result<b
         }
     }
     let wd = WorkDir::new("c17");
+    // Where the tree lives is a function of the stream's hash (no extra choices): directly in the
+    // scratch directory, or below directories called like the ones the server gives a meaning to
+    // (a monorepo's `packages/`, a directory called `build`).
+    let hlay = crate::engine::choices::hash_str(&hex(bytes));
+    let prefix = ["", "", "packages", "mono/packages", "build", "build/x"][(hlay % 6) as usize];
+    TREE_PREFIX.with(|p| *p.borrow_mut() = prefix.to_string());
+    if !prefix.is_empty() {
+        ctx.class(&format!("project tree below `{}/`", prefix));
+    }
     for (pi, p) in sw.ws.packages.iter().enumerate() {
         let d = disk_path(&wd, &p.root);
         let _ = std::fs::create_dir_all(&d);
@@ -85,7 +101,14 @@ pub fn run_tree_mode(ctx: &mut Ctx, bytes: &[u8], rename_mode: bool) -> Result<b
         let _ = std::fs::write(&p, &f.text);
     }
     // a free-standing file without gleam.toml
-    let loose = wd.write("loose/dir/free.gleam", "pub fn free(a) {\n  let b = a\n  b\n}\n");
+    // (in a directory of its own, or right next to the root package's directory and spelled like it)
+    let loose_rel = if (hlay >> 8) % 3 == 0 {
+        ctx.class("free-standing file `app.gleam` next to the package directory `app/`");
+        if prefix.is_empty() { "app.gleam".to_string() } else { format!("{}/app.gleam", prefix) }
+    } else {
+        "loose/dir/free.gleam".to_string()
+    };
+    let loose = wd.write(&loose_rel, "pub fn free(a) {\n  let b = a\n  b\n}\n");
     let uri = |fi: usize| uri_of(&disk_path(&wd, &sw.ws.files[fi].path));
     let mut lsp = Lsp::spawn(&wd.path, &[]).map_err(|e| Failure::new(format!("cannot start glas: {e}"), case.clone()).sig("kind", "harness"))?;
     if !lsp.initialize(&wd.path) {
